@@ -304,6 +304,8 @@ Definition parse_extended (payload : list Z) : Res dstate :=
   | flags :: _ :: _ :: _ :: w0 :: w1 :: w2 :: h0 :: h1 :: h2 :: _ =>
     let cw := (w0 + 256 * w1 + 65536 * w2) + 1 in
     let ch := (h0 + 256 * h1 + 65536 * h2) + 1 in
+    (* same cap as container.Parser.parseVP8X *)
+    if cw * ch >=? MaxImageArea then Err E_vp8x else
     let bit k := negb ((flags / k) mod 2 =? 0) in
     let ft := mkfeat cw ch (bit 16) (bit 2) (bit 32) (bit 8) (bit 4) 3 in
     let d := mkd [vp8x] ft [] None None None 0 0 in
